@@ -1,11 +1,22 @@
 /-
-  C15 — property theorems (limit algebra; batched reads).
+  C15 — property theorems (limit algebra; batched reads; read-path shaping).
   Helper lemmas live in GormModel/Lemmas/*.lean; only property statements here.
+
+  Three genuine defects of the unchanged tree are stated as `_counterexample` theorems (each replayed on the
+  real code by the harness) and excluded, exactly by the negation of their pattern, in `_partial`:
+    F7  FindInBatches under a user `Order` that is not key-monotone skips / repeats rows,
+    F7b FindInBatches on a chain containing an `Or` member never advances,
+    F7c FindInBatches on a chain whose effective LIMIT is 0 delivers every row (Find delivers none).
 -/
 import GormModel.Model.Limit
 import GormModel.Model.Batches
+import GormModel.Model.ReadPaths
 import GormModel.Lemmas.Limit
+import GormModel.Lemmas.Batches
+import GormModel.Lemmas.ReadPaths
 namespace Gorm
+
+/-! ## Limit / Offset merge as a fold over ANY call sequence -/
 
 /-- Limit algebra, full strength: after ANY sequence of `Limit n` / `Offset n` chain calls
     starting from a statement without LIMIT clause, the LIMIT that `Limit.Build` prints is the
@@ -32,5 +43,272 @@ theorem C15_limit_merge_offset (cs : List LimCall) :
 example : effLimitOf (applyCalls none [.limit 3, .offset 5, .limit (-1), .offset 2, .limit 0]) = none
     ∧ effOffsetOf (applyCalls none [.limit 3, .offset 5, .limit (-1), .offset 2, .limit 0]) = some 2 := by
   decide
+
+/-! ## FindInBatches -/
+
+/-- Batched reads, chain WITHOUT user ordering over the (filtered) rows `rows` in key order, for ALL table
+    sizes, batch sizes, limits and offsets: the concatenation of the delivered batches is exactly what `Find`
+    returns for the same chain (`take limit (drop offset rows)`), no batch is empty or larger than requested,
+    the keys are strictly increasing across batches (so no row twice; none missing by the first conjunct),
+    RowsAffected is the number of rows delivered, the loop ends by itself within the given fuel and never
+    reports ErrPrimaryKeyRequired.  `hL0` excludes finding F7c (effective LIMIT 0). -/
+theorem C15_batches_exact (rows : List Nat) (lim : Option Limit) (batch : Int)
+    (hs : rows.Pairwise (· < ·)) (hp : ∀ k ∈ rows, 0 < k) (hb : 0 < batch)
+    (hL0 : effLimitOf lim ≠ some 0) :
+    let out := findInBatches rows lim batch (rows.length + 2)
+    out.batches.flatten = findAll rows lim
+    ∧ findAll rows lim = window rows (effLimitOf lim) (effOffsetOf lim)
+    ∧ (∀ b ∈ out.batches, b ≠ [] ∧ (b.length : Int) ≤ batch)
+    ∧ out.batches.flatten.Pairwise (· < ·)
+    ∧ out.rowsAffected = (out.batches.flatten.length : Int)
+    ∧ out.outOfFuel = false ∧ out.pkRequired = false := by
+  intro out
+  obtain ⟨h1, h2, h3, h4, h5⟩ := findInBatches_spec rows lim batch (rows.length + 2) hs hp hb hL0 (by omega)
+  refine ⟨h1, rfl, h2, ?_, ?_, h3, h4⟩
+  · show (findInBatches rows lim batch (rows.length + 2)).batches.flatten.Pairwise (· < ·)
+    rw [h1]; exact List.Pairwise.sublist (findAll_sublist rows lim) hs
+  · show (findInBatches rows lim batch (rows.length + 2)).rowsAffected = _
+    rw [h5, h1]
+
+/-- Termination = fuel adequacy: ANY fuel above the table size suffices (the loop performs at most
+    `rows.length + 1` queries); a failure of this theorem would be a non-termination finding
+    (and is one for chains with `Or`: `C15_batches_or_counterexample`). -/
+theorem C15_batches_terminates (rows : List Nat) (lim : Option Limit) (batch : Int) (fuel : Nat)
+    (hs : rows.Pairwise (· < ·)) (hp : ∀ k ∈ rows, 0 < k) (hb : 0 < batch)
+    (hL0 : effLimitOf lim ≠ some 0) (hf : rows.length + 1 ≤ fuel) :
+    (findInBatches rows lim batch fuel).outOfFuel = false
+    ∧ (findInBatches rows lim batch fuel).batches.flatten = findAll rows lim :=
+  have h := findInBatches_spec rows lim batch fuel hs hp hb hL0 hf
+  ⟨h.2.2.1, h.1⟩
+
+/-- The same on the full chain model (WHERE = members joined as OR of AND-runs with the cursor appended,
+    ORDER BY = user columns then the key): exact whenever the chain has no `Or` member (¬F7b), the user
+    ordering is key-monotone on the table (¬F7; in particular when there is none) and the effective LIMIT is
+    not 0 (¬F7c). -/
+theorem C15_batches_exact_partial (tbl : List Nat) (us : List WUnit) (ord : List OrdCol)
+    (lim : Option Limit) (batch : Int)
+    (hs : tbl.Pairwise (· < ·)) (hp : ∀ k ∈ tbl, 0 < k) (hb : 0 < batch)
+    (hNoOr : ∀ u ∈ us, u.isOr = false) (hOrd : KeyMonotone tbl ord) (hL0 : effLimitOf lim ≠ some 0)
+    (fuel : Nat) (hf : tbl.length + 1 ≤ fuel) :
+    let out := findInBatchesW tbl us ord lim batch fuel
+    out.batches.flatten = findAllW tbl us ord lim
+    ∧ findAllW tbl us ord lim = window (matchingW tbl us) (effLimitOf lim) (effOffsetOf lim)
+    ∧ (∀ b ∈ out.batches, b ≠ [] ∧ (b.length : Int) ≤ batch)
+    ∧ out.batches.flatten.Pairwise (· < ·)
+    ∧ out.rowsAffected = (out.batches.flatten.length : Int)
+    ∧ out.outOfFuel = false ∧ out.pkRequired = false := by
+  intro out
+  have hM : (matchingW tbl us).Pairwise (· < ·) := List.Pairwise.sublist List.filter_sublist hs
+  have hMp : ∀ k ∈ matchingW tbl us, 0 < k := fun k hk => hp k (List.mem_filter.mp hk).1
+  have hlen : (matchingW tbl us).length + 1 ≤ fuel := by
+    have : (matchingW tbl us).length ≤ tbl.length := List.length_filter_le _ _
+    omega
+  have e1 : out = findInBatches (matchingW tbl us) lim batch fuel :=
+    findInBatchesW_eq tbl us ord hNoOr hOrd lim batch fuel
+  have e2 := findAllW_eq tbl us ord hNoOr hOrd lim
+  obtain ⟨h1, h2, h3, h4, h5⟩ := findInBatches_spec (matchingW tbl us) lim batch fuel hM hMp hb hL0 hlen
+  rw [e1, e2]
+  refine ⟨h1, rfl, h2, ?_, ?_, h3, h4⟩
+  · rw [h1]; exact List.Pairwise.sublist (findAll_sublist _ lim) hM
+  · rw [h5, h1]
+
+/-- no user ordering is key-monotone -/
+theorem C15_no_user_order_monotone (tbl : List Nat) (hs : tbl.Pairwise (· < ·)) : KeyMonotone tbl [] :=
+  keyMonotone_nil tbl hs
+
+/-- non-vacuity: 7 rows with gaps, WHERE `k ≠ 4 AND k < 12`, Limit(5).Offset(1), batch 2 -/
+example : (findInBatchesW [1, 2, 4, 5, 8, 9, 13] [⟨false, fun k => k != 4⟩, ⟨false, fun k => k < 12⟩] []
+      (applyCalls none [.limit 5, .offset 1]) 2 9).batches = [[2, 5], [8, 9]] := by decide
+
+/-- F7 (witness replayed on the real code): six rows, `Order("name")` with names descending in the key,
+    batch 2: the key cursor under a non-key ordering delivers ids `[6 5] [6]` — row 6 twice, rows 1–4 never. -/
+theorem C15_batches_user_order_counterexample :
+    (findInBatchesW [1, 2, 3, 4, 5, 6] [] [{ key := fun k => 7 - (k : Int), desc := false }] none 2 8).batches = [[6, 5], [6]]
+    ∧ findAllW [1, 2, 3, 4, 5, 6] [] [{ key := fun k => 7 - (k : Int), desc := false }] none = [6, 5, 4, 3, 2, 1] := by
+  decide
+
+/-- F7c (witness replayed on the real code): `Limit(0)`: Find returns nothing, FindInBatches everything. -/
+theorem C15_batches_limit_zero_counterexample :
+    (findInBatches [1, 2, 3] (applyCalls none [.limit 0]) 2 5).batches = [[1, 2], [3]]
+    ∧ findAll [1, 2, 3] (applyCalls none [.limit 0]) = [] := by
+  decide
+
+/-- the witness chain of F7b: `Where("n <= 2").Or("n = 4")` over keys 1..4 (n = key) -/
+def f7bUnits : List WUnit := [⟨false, fun k => decide (k ≤ 2)⟩, ⟨true, fun k => decide (k = 4)⟩]
+
+private theorem f7b_stuck (fuel : Nat) : ∀ (b ra : Int) (acc : List (List Nat)) (qs : List BatchQuery),
+    (batchLoopQ (fun l o g => queryW [1, 2, 3, 4] f7bUnits [pkAsc] (some l) o g) none 0 fuel
+      { batchSize := 2, batch := b, rowsAffected := ra, cursor := some 2, first := false } acc qs).outOfFuel
+      = true := by
+  induction fuel with
+  | zero => intro b ra acc qs; rfl
+  | succ fuel ih =>
+    intro b ra acc qs
+    have hq : queryW [1, 2, 3, 4] f7bUnits [pkAsc] (some 2) none (some 2) = [1, 2] := by decide
+    have hnext : (batchStep (fun l o g => queryW [1, 2, 3, 4] f7bUnits [pkAsc] (some l) o g) none 0
+        { batchSize := 2, batch := b, rowsAffected := ra, cursor := some 2, first := false }).next
+        = some { batchSize := 2, batch := b + 1, rowsAffected := ra + 2, cursor := some 2, first := false } := by
+      simp [batchStep, hq]
+    rw [batchLoopQ_next _ _ _ _ _ _ _ _ hnext]
+    exact ih _ _ _ _
+
+/-- F7b (witness replayed on the real code, loop bounded by an aborting callback): the cursor is AND-ed to
+    the LAST OR-run only (`WHERE n <= 2 OR n = 4 AND id > 2`), rows 1,2 are delivered by every query and the
+    loop NEVER ends: whatever the fuel, it is exhausted. -/
+theorem C15_batches_or_counterexample :
+    (∀ fuel, (findInBatchesW [1, 2, 3, 4] f7bUnits [] none 2 fuel).outOfFuel = true)
+    ∧ (findInBatchesW [1, 2, 3, 4] f7bUnits [] none 2 3).batches = [[1, 2], [1, 2], [1, 2]]
+    ∧ findAllW [1, 2, 3, 4] f7bUnits [] none = [1, 2, 4] := by
+  refine ⟨?_, by decide, by decide⟩
+  intro fuel
+  cases fuel with
+  | zero => rfl
+  | succ fuel =>
+    have hq : queryW [1, 2, 3, 4] f7bUnits [pkAsc] (some 2) none none = [1, 2] := by decide
+    have hnext : (batchStep (fun l o g => queryW [1, 2, 3, 4] f7bUnits [pkAsc] (some l) o g) none 0
+        { batchSize := 2 }).next
+        = some { batchSize := 2, batch := 0 + 1, rowsAffected := 0 + 2, cursor := some 2, first := false } := by
+      simp [batchStep, hq]
+    show (batchLoopQ (fun l o g => queryW [1, 2, 3, 4] f7bUnits [pkAsc] (some l) o g) none 0 (fuel + 1)
+      { batchSize := 2 } [] []).outOfFuel = true
+    rw [batchLoopQ_next _ _ _ _ _ _ _ _ hnext]
+    exact f7b_stuck fuel _ _ _ _
+
+/-! ## the other read paths: Count / First / Last / Take / Find / Scan / Pluck -/
+
+/-- Count (chain without effective LIMIT / OFFSET; no grouping in the model) = number of rows Find returns,
+    whatever the WHERE and the ordering. -/
+theorem C15_count_eq_find (tbl : List Nat) (c : Chain)
+    (hl : effLimitOf c.lim = none) (ho : effOffsetOf c.lim = none) :
+    c.count tbl = (c.find tbl).rows.length := by
+  simp only [Chain.count, countRows, Chain.find, Chain.run, queryW, hl, ho, window, Chain.matching, matchingW,
+    isort_length]
+  rfl
+
+/-- with LIMIT / OFFSET the count query keeps them: OFFSET > 0 or LIMIT 0 make Count report 0 — which is why
+    the property (and the oracle) demand equality only "without limit, offset". Witness: 3 rows, Offset(1). -/
+example : (Chain.count [1, 2, 3] { lim := applyCalls none [.offset 1] }) = 0
+    ∧ ((Chain.find [1, 2, 3] { lim := applyCalls none [.offset 1] }).rows.length) = 2 := by decide
+
+/-- `Count` hands back the chain it was given (SELECT and ORDER BY restored), and its own query carries no
+    ORDER BY: a finisher applied to Count's return value sees the same chain. -/
+theorem C15_count_returns_chain (tbl : List Nat) (c : Chain) :
+    (c.afterCount).find tbl = c.find tbl ∧ c.countQueryOrder = [] := ⟨rfl, rfl⟩
+
+/-- First / Last without user ordering and without OFFSET: exactly the matching row with the lowest / highest
+    primary key (nothing when there is none), whatever LIMIT the chain carried. -/
+theorem C15_first_last (tbl : List Nat) (c : Chain) (hs : tbl.Pairwise (· < ·))
+    (hord : c.order = []) (hoff : effOffsetOf c.lim = none) :
+    (c.first tbl).rows = (c.matching tbl).head?.toList
+    ∧ (c.last tbl).rows = (c.matching tbl).getLast?.toList
+    ∧ (∀ r ∈ (c.first tbl).rows, r ∈ c.matching tbl ∧ ∀ k ∈ c.matching tbl, r ≤ k)
+    ∧ (∀ r ∈ (c.last tbl).rows, r ∈ c.matching tbl ∧ ∀ k ∈ c.matching tbl, k ≤ r) := by
+  have hM := matching_sorted tbl c hs
+  have hoff0 : offNat c.lim = 0 := by simp [offNat, hoff]
+  have hf : (c.first tbl).rows = (c.matching tbl).head?.toList := by
+    rw [Chain.first, first_run, single_rows, hord, List.nil_append, isort_pkAsc _ hM, hoff0, List.drop_zero,
+      take1_eq_head]
+  have hl : (c.last tbl).rows = (c.matching tbl).getLast?.toList := by
+    rw [Chain.last, last_run, single_rows, hord, List.nil_append, isort_pkDesc _ hM, hoff0, List.drop_zero,
+      take1_eq_head, List.head?_reverse]
+  refine ⟨hf, hl, ?_, ?_⟩
+  · intro r hr
+    rw [hf] at hr
+    cases hm : c.matching tbl with
+    | nil => rw [hm] at hr; simp at hr
+    | cons x M =>
+      rw [hm] at hr hM
+      simp at hr; subst hr
+      rw [List.pairwise_cons] at hM
+      refine ⟨by simp, ?_⟩
+      intro k hk
+      rcases List.mem_cons.mp hk with rfl | hk
+      · exact Nat.le_refl _
+      · exact Nat.le_of_lt (hM.1 k hk)
+  · intro r hr
+    rw [hl] at hr
+    cases hg : (c.matching tbl).getLast? with
+    | none => rw [hg] at hr; simp at hr
+    | some y =>
+      rw [hg] at hr; simp at hr; subst hr
+      obtain ⟨M', hM'⟩ := List.getLast?_eq_some_iff.mp hg
+      rw [hM'] at hM ⊢
+      rw [List.pairwise_append] at hM
+      refine ⟨by simp, ?_⟩
+      intro k hk
+      rcases List.mem_append.mp hk with hk | hk
+      · exact Nat.le_of_lt (hM.2.2 k hk r (by simp))
+      · simp at hk; subst hk; exact Nat.le_refl _
+
+/-- First / Last / Take under ANY user ordering (no OFFSET): the row delivered matches, and no matching row
+    comes strictly before it in "user columns first, key (ascending for First, descending for Last) as the
+    tie-break" — exactly the latitude the property leaves. -/
+theorem C15_first_last_user_order (tbl : List Nat) (c : Chain) (hoff : effOffsetOf c.lim = none) :
+    (∀ r ∈ (c.first tbl).rows, r ∈ c.matching tbl ∧ ∀ k ∈ c.matching tbl, ordLe (c.order ++ [pkAsc]) r k = true)
+    ∧ (∀ r ∈ (c.last tbl).rows, r ∈ c.matching tbl ∧ ∀ k ∈ c.matching tbl, ordLe (c.order ++ [pkDesc]) r k = true)
+    ∧ (∀ r ∈ (c.take tbl).rows, r ∈ c.matching tbl ∧ ∀ k ∈ c.matching tbl, ordLe c.order r k = true) := by
+  have hoff0 : offNat c.lim = 0 := by simp [offNat, hoff]
+  have key : ∀ (cols : List OrdCol) (r : Nat),
+      r ∈ (single (((isort (ordLe cols) (c.matching tbl)).drop (offNat c.lim)).take 1)).rows →
+      r ∈ c.matching tbl ∧ ∀ k ∈ c.matching tbl, ordLe cols r k = true := by
+    intro cols r hr
+    rw [single_rows, hoff0, List.drop_zero, take1_eq_head] at hr
+    have hh : (isort (ordLe cols) (c.matching tbl)).head? = some r := by
+      cases h : (isort (ordLe cols) (c.matching tbl)).head? with
+      | none => rw [h] at hr; simp at hr
+      | some x => rw [h] at hr; simp at hr; subst hr; rfl
+    refine ⟨?_, isort_head_le _ (ordLe_total cols) (ordLe_trans cols) _ r hh⟩
+    exact (mem_isort _ _ _).mp (List.mem_of_mem_head? hh)
+  refine ⟨?_, ?_, ?_⟩
+  · intro r hr; rw [Chain.first, first_run] at hr; exact key _ r hr
+  · intro r hr; rw [Chain.last, last_run] at hr; exact key _ r hr
+  · intro r hr; rw [Chain.take, take_run] at hr; exact key _ r hr
+
+/-- ErrRecordNotFound exactly when a single-record finder matches nothing (after the user's OFFSET):
+    First / Last / Take raise it iff no matching row is left; Find and Scan never do. -/
+theorem C15_not_found_iff (tbl : List Nat) (c : Chain) :
+    ((c.first tbl).notFound = true ↔ (c.matching tbl).length ≤ offNat c.lim)
+    ∧ ((c.last tbl).notFound = true ↔ (c.matching tbl).length ≤ offNat c.lim)
+    ∧ ((c.take tbl).notFound = true ↔ (c.matching tbl).length ≤ offNat c.lim)
+    ∧ (c.find tbl).notFound = false ∧ (c.scanOne tbl).notFound = false := by
+  refine ⟨?_, ?_, ?_, rfl, rfl⟩
+  · rw [Chain.first, first_run, single_notFound, isort_length]
+  · rw [Chain.last, last_run, single_notFound, isort_length]
+  · rw [Chain.take, take_run, single_notFound, isort_length]
+
+/-- … in particular, without OFFSET: iff the WHERE matches no row. -/
+theorem C15_not_found_iff_no_match (tbl : List Nat) (c : Chain) (hoff : effOffsetOf c.lim = none) :
+    ((c.first tbl).notFound = true ↔ c.matching tbl = [])
+    ∧ ((c.last tbl).notFound = true ↔ c.matching tbl = [])
+    ∧ ((c.take tbl).notFound = true ↔ c.matching tbl = []) := by
+  have hoff0 : offNat c.lim = 0 := by simp [offNat, hoff]
+  have h := C15_not_found_iff tbl c
+  rw [hoff0] at h
+  have e : (c.matching tbl).length ≤ 0 ↔ c.matching tbl = [] := by
+    rw [Nat.le_zero]; exact List.length_eq_zero_iff
+  exact ⟨h.1.trans e, h.2.1.trans e, h.2.2.1.trans e⟩
+
+/-- RowsAffected = rows returned, on every path; for Find that number is the size of the LIMIT/OFFSET window
+    of the matching rows whatever the ordering; a single-record finder reports 1 or 0. -/
+theorem C15_rows_affected (tbl : List Nat) (c : Chain) :
+    (c.find tbl).rowsAffected = ((c.find tbl).rows.length : Int)
+    ∧ ((c.find tbl).rows.length = (window (c.matching tbl) (effLimitOf c.lim) (effOffsetOf c.lim)).length)
+    ∧ (c.first tbl).rowsAffected = ((c.first tbl).rows.length : Int)
+    ∧ (c.last tbl).rowsAffected = ((c.last tbl).rows.length : Int)
+    ∧ (c.take tbl).rowsAffected = ((c.take tbl).rows.length : Int)
+    ∧ (c.scanOne tbl).rowsAffected = ((c.scanOne tbl).rows.length : Int)
+    ∧ ((c.first tbl).rowsAffected = 0 ↔ (c.first tbl).notFound = true) := by
+  refine ⟨rfl, ?_, rfl, rfl, rfl, rfl, ?_⟩
+  · simp only [Chain.find, Chain.run, queryW, Chain.matching, matchingW]
+    exact window_length_isort _ _ _ _
+  · simp only [Chain.first, single, List.isEmpty_iff]
+    cases ((c.limit 1).orderBy pkAsc).run tbl <;> simp
+
+/-- non-vacuity of the read-path theorems: WHERE `k ≥ 2 OR k = 1 AND k ≠ 1`, user order by `k % 2` descending -/
+example :
+    let c : Chain := { units := [⟨false, fun k => decide (2 ≤ k)⟩, ⟨true, fun k => k == 1⟩, ⟨false, fun k => k != 1⟩],
+                       order := [{ key := fun k => ((k % 2 : Nat) : Int), desc := true }] }
+    (c.find [1, 2, 3, 4, 5]).rows = [3, 5, 2, 4] ∧ (c.first [1, 2, 3, 4, 5]).rows = [3]
+    ∧ (c.last [1, 2, 3, 4, 5]).rows = [5] ∧ c.count [1, 2, 3, 4, 5] = 4 := by decide
 
 end Gorm
